@@ -65,7 +65,7 @@ Definition expected (k : case) : outc :=
 
 Definition check (k : case) : bool :=
   match expected k, k_out k with
-  | OVals r i, OVals r' i' => Qsclose 0 tol r' r && Qsclose 0 tol i' i
+  | OVals r i, OVals r' i' => Qsclose tol tol r' r && Qsclose tol tol i' i
   | ONonFinite, ONonFinite => true
   | OTypeErr, OTypeErr => true
   | OValueErr, OValueErr => true
@@ -77,12 +77,12 @@ Definition check (k : case) : bool :=
 Record scase := { s_cvs : list (list Q); s_re : fexpr; s_im : fexpr; s_cplx : bool;
                   s_out_re : list Q; s_out_im : list Q }.
 Definition scheck (k : scase) : bool :=
-  Qsclose 0 tol (s_out_re k) (collocate (feval (s_re k)) (s_cvs k)) &&
-  (negb (s_cplx k) || Qsclose 0 tol (s_out_im k) (collocate (feval (s_im k)) (s_cvs k))).
+  Qsclose tol tol (s_out_re k) (collocate (feval (s_re k)) (s_cvs k)) &&
+  (negb (s_cplx k) || Qsclose tol tol (s_out_im k) (collocate (feval (s_im k)) (s_cvs k))).
 
 (* ---- sample, then interpolate (Resampling of a sampled callable) ---- *)
 Record rcase := { r_cvs : list (list Q); r_f : fexpr; r_ss : list scheme; r_mesh : list (list Q);
                   r_out : list Q }.
 Definition rcheck (k : rcase) : bool :=
-  Qsclose 0 tol (r_out k)
+  Qsclose tol tol (r_out k)
     (peraxis_mesh (r_ss k) (r_cvs k) (vget (shape_of (r_cvs k)) (collocate (feval (r_f k)) (r_cvs k))) (r_mesh k)).
